@@ -1,7 +1,7 @@
 """Kani back end for loop-free leaf functions (complete proofs over full-width symbolic inputs)."""
 import os, re, subprocess, time, shutil
 from . import rsparse
-from .engine import VERIF, REPO, WORK, UnitResult
+from .engine import VERIF, REPO, WORK, UnitResult, unit_lock
 from .rsparse import LostAnchor
 
 UNITS = {
@@ -15,6 +15,11 @@ UNITS = {
 
 
 def verify_unit(name, tier='quick', seed=0):
+    with unit_lock(name):
+        return _verify_unit(name, tier, seed)
+
+
+def _verify_unit(name, tier='quick', seed=0):
     r = UnitResult(name)
     r.backend = 'kani 0.68 / cbmc 6.11'
     t0 = time.time()
